@@ -3,6 +3,7 @@
   real parser), closed by kernel evaluation (`decide +kernel`). Any edit of a `_visit_*` body re-opens them.
 -/
 import PyGqlModel.Props.C18
+import PyGqlModel.Props.C18_once
 
 namespace PyGql.Props.C18
 open PyGql.Visit PyGql.Generated.VisitTable
@@ -63,5 +64,77 @@ theorem dispatching_total :
     enterRegistry.map (·.1) = leaveRegistry.map (·.1) ∧
     table.visit.all (fun p => (enterRegistry.lookup p.1).isSome) = true ∧
     enterRegistry.all (fun p => (table.visit.lookup p.1).isSome) = true := by decide +kernel
+
+private theorem all_lookup {β : Type} (p : String × β → Bool) :
+    ∀ (l : List (String × β)), l.all p = true → ∀ a b, l.lookup a = some b → ∃ a', p (a', b) = true := by
+  intro l
+  induction l with
+  | nil => intro _ a b h; simp [List.lookup] at h
+  | cons q r ih =>
+    obtain ⟨c, z⟩ := q
+    intro hall a b h
+    simp only [List.all_cons, Bool.and_eq_true] at hall
+    simp only [List.lookup] at h
+    cases hac : a == c with
+    | true => simp only [hac, Option.some.injEq] at h; subst h; exact ⟨c, hall.1⟩
+    | false => simp only [hac] at h; exact ih hall.2 a b h
+
+/-- today's table satisfies the hypothesis of `once` -/
+theorem table_StepsDistinct : StepsDistinct table := by
+  intro m steps h
+  have hex := all_lookup (fun p : String × List Step => decide ((p.2.map (·.attr)).Nodup)) table.methods
+    table_steps_distinct m steps h
+  obtain ⟨a', hp⟩ := hex
+  exact of_decide_eq_true hp
+
+/-- **once**, for the traversal that `visitor.py` implements today -/
+theorem once_today {σ : Type} (v : Visitor σ) (hv : Observer v) (fuel : Nat) (t : Node) (s : σ) (o : Out σ)
+    (h : visit table v fuel t s = .ok o) (hnd : (idsNode t).Nodup) : (entered o.tr).Nodup :=
+  (once table table_StepsDistinct v hv fuel t s o h hnd).1
+
+/-! ### non-vacuity and bounded instances of the tree-level specification `Spec.editAt` -/
+
+/-- the hypotheses of `identity_noop` / `balanced` / `coverage_partial` / `once` are met by real documents:
+    the identity visit of each witness completes, and the witnesses have distinct identities -/
+example : (implKeys 64 witnessSmall).isSome = true ∧ (implKeys 64 witnessExec).isSome = true ∧
+    (implKeys 64 witnessSdl).isSome = true := by decide +kernel
+example : (idsNode witnessSmall).Nodup ∧ (idsNode witnessExec).Nodup := by decide +kernel
+
+/-- acts on the node with identity `i`, changes nothing elsewhere -/
+def actAt (i : Nat) (a : Node → Act) : Visitor Unit := ⟨fun n s => (if n.id == i then a n else .keep n, s), fun _ s => s⟩
+
+/-- such a visitor that deletes or skips is identity preserving (hypothesis of `balanced`) -/
+example (i : Nat) : IdPreserving (actAt i fun _ => .delete) := by
+  intro n s; simp only [actAt]; cases n.id == i <;> simp
+example (i : Nat) : IdPreserving (actAt i fun n => .skip n) := by
+  intro n s; simp only [actAt]; cases n.id == i <;> simp
+
+private def pathB : List (String × Option Nat) := [("definitions", some 0), ("selection_set", none), ("selections", some 1)]
+
+private def sameTree (r : Res (Out Unit)) (e : Option (Option Node)) : Bool :=
+  match r, e with
+  | .ok o, some (some b) => (match o.ret with | some a => Node.beq a b | none => false)
+  | _, _ => false
+
+/-- `{ a(x: 1) @d b { c } }`, deleting field `b` (identity 10): the result is `Spec.editAt` (exactly that member
+    removed), and the calls are those of the identity visit minus the inside of `b` -/
+example : sameTree (visit table (actAt 10 fun _ => .delete) 64 witnessSmall ()) (Spec.editAt pathB .delete witnessSmall) = true ∧
+    (match visit table (actAt 10 fun _ => .delete) 64 witnessSmall () with
+     | .ok o => o.tr.map Ev.key
+     | _ => []) = (specKeys witnessSmall).filter (fun k => !(k.2.1 == 12 || k.2.1 == 13 || (k.2.1 == 10 && !k.1))) := by
+  decide +kernel
+
+/-- skipping `b`: tree unchanged, same calls as for the deletion -/
+example : sameTree (visit table (actAt 10 fun n => .skip n) 64 witnessSmall ()) (some (some witnessSmall)) = true ∧
+    (match visit table (actAt 10 fun n => .skip n) 64 witnessSmall () with
+     | .ok o => o.tr.map Ev.key
+     | _ => []) = (specKeys witnessSmall).filter (fun k => !(k.2.1 == 12 || k.2.1 == 13 || (k.2.1 == 10 && !k.1))) := by
+  decide +kernel
+
+/-- replacing `b` by a fresh leaf field: the result is `Spec.editAt … (.replace r)` -/
+example :
+    let r : Node := .mk "Field" 100 [("name", .one none), ("alias", .one none), ("arguments", .many []), ("directives", .many []), ("selection_set", .one none)]
+    sameTree (visit table (actAt 10 fun _ => .replace r) 64 witnessSmall ()) (Spec.editAt pathB (.replace r) witnessSmall) = true := by
+  decide +kernel
 
 end PyGql.Props.C18
